@@ -39,6 +39,8 @@ def parse_table(ctx, out, pf, enum):
         if len(t["args"]) < 2:
             continue
         prefix = util.const_of(ctx, t["args"][1])
+        if isinstance(prefix, int):
+            prefix = chr(prefix)
         # the Some arm
         succ = cfg.succ[bi]
         variant = None
@@ -56,6 +58,26 @@ def parse_table(ctx, out, pf, enum):
         rows.append((bi, prefix, variant, t))
     # order by dominance (first tested first)
     rows.sort(key=lambda r: sum(1 for o in rows if cfg.dominates(o[0], r[0])))
+    if rows and all(r[1] is None for r in rows) and len(rows) == 1:
+        # table idiom: `TABLE.iter().find_map(|(token, op)| s.strip_prefix(token).map(|rest| (*op, rest)))`
+        # the rows are those of the constant table, tested in array order (find_map stops at the first hit)
+        bi, _, _, t = rows[0]
+        tables = []
+        for bb, j, s in pf.assigns():
+            rv = s["rv"]
+            if rv["k"] == "use" and isinstance(rv["op"].get("k"), dict) and rv["op"]["k"].get("uneval") and re.search(r"\[\(&str, %s\); \d+\]" % re.escape(enum), rv["op"]["k"].get("ty") or ""):
+                tab = util.const_table(ctx, rv["op"]["k"])
+                if tab:
+                    tables.append(tab)
+        first_hit = any(callee_matches(t2, r"Iterator>?::(find_map|find)$") for _, t2 in pf.calls()) or getattr(pf, "sugar_expanded", None)
+        if len(tables) == 1 and first_hit:
+            out_rows = []
+            for i, row in enumerate(tables[0]):
+                if isinstance(row, list) and len(row) == 2 and isinstance(row[0], str) and isinstance(row[1], tuple):
+                    out_rows.append((bi, row[0], row[1][2], t))
+                else:
+                    out_rows.append((bi, None, None, t))
+            return out_rows
     return rows
 
 
@@ -116,7 +138,11 @@ def print_table(ctx, enum):
 
 def run(ctx, out, tier):
     name = "line-count"
-    vb = ctx.validate_body(name)
+    # helpers are looked through (virtual inlining), except the constraint parser, which is a table
+    # of its own
+    def keep_parser(cb):
+        return re.match(r"std::result::Result<\((\S+), usize\), anyhow::Error>", cb.local_ty(0)) is not None
+    vb = ctx.validate_body(name, inline=True, skip=keep_parser, tag="C09", sugar=True)
     if vb is None:
         out.inst("C09.anchor", 0, 1)
         return meta()
@@ -127,6 +153,8 @@ def run(ctx, out, tier):
     if pf is None:
         out.inst("C09.ops", 0, 15, note="constraint parser not found")
         return meta()
+    # the parser with its helpers inlined and its combinators / pipelines expanded
+    pf = ctx.inl(pf, skip=ctx.domain_api, tag="domain", sugar=True)
     variants = {v["vi"]: v["name"] for v in ctx.facts.adts[enum]["variants"]}
     vname_to_idx = {v: k for k, v in variants.items()}
 
@@ -202,14 +230,8 @@ def run(ctx, out, tier):
             pl = util.op_place(vb.blocks[br]["term"]["op"])
             if pl is None:
                 continue
-            src = pl["l"]
-            # follow a single copy
-            sd = vb.single_def(src)
-            if sd and sd[0] == "stmt" and sd[3]["rv"]["k"] == "use":
-                p2 = util.op_place(sd[3]["rv"]["op"])
-                if p2:
-                    src = p2["l"]
-            cmp_dsts = {c[4] for c in cmp_tab.values()}
+            src = util.copy_root(vb, pl["l"])
+            cmp_dsts = {util.copy_root(vb, c[4]) for c in cmp_tab.values()} | {c[4] for c in cmp_tab.values()}
             if src in cmp_dsts:
                 if vals == {0}:
                     good = True
@@ -232,13 +254,7 @@ def run(ctx, out, tier):
         pl = util.op_place(a)
         if pl is None:
             continue
-        src = pl["l"]
-        sd = vb.single_def(src)
-        if sd and sd[0] == "stmt" and sd[3]["rv"]["k"] == "use":
-            p2 = util.op_place(sd[3]["rv"]["op"])
-            if p2:
-                src = p2["l"]
-        cs.append(src)
+        cs.append(util.copy_root(vb, pl["l"]))
     count_locals = sorted(set(cs))
     for l in count_locals:
         for d in vb.defs().get(l, []):
@@ -294,6 +310,13 @@ def run(ctx, out, tier):
         e = Ep.operand(t["args"][0])
         txt = render(e, 800)
         ok = e[0] == "call" and e[1].endswith("::trim") and not find_calls(e, r"split|next$|trim_(start|end)_matches|chars|find")
+        if not ok and e[0] != "call":
+            # the text went through a tuple / Option built on several paths: decide on its origins
+            labs = ctx.prov.read_operand(pf, t["args"][0])
+            direct = {l for l in labs if l[0] == "call" and not l[2]}
+            ok = bool(direct) and all(re.search(r"<impl str>::trim$", l[1]) for l in direct) \
+                and not P.has_call(labs, r"split|trim_(start|end)_matches|trim_matches|chars|char_indices|<impl str>::find$|<impl str>::rfind$")
+            txt = "a value with origins [%s]" % util.origins_text(labs, 5)
         if ok:
             n_b += 1
         else:
